@@ -13,7 +13,7 @@ def run(report, replay=None):
     n = 4000 if report.tier == 'thorough' else 420
     names = ('routines', 'functions', 'return-in-loops')
     fixed = [r for r in corpus.records() if r['profile'].split(':')[1] in names]
-    lang_props.run_profiles(report, [('routines', n, 35)], fixed)
+    lang_props.run_profiles(report, [('routines', n, 35), ('nested', n // 4, 30)], fixed)
     report.assumptions += lang_props.ASSUMPTIONS
 
 
